@@ -17,7 +17,7 @@ from common import rng_for, run_model, coq_eval, w_list, frac, close, TAU1
 RULE = ("dissimilarity objects from VERIF_SEED: positional, absolute, precomputed, Levenshtein, ordinal (with / without positions), numerical, "
         "combined (alpha, beta in {0,.5,1,3}; delta_empty in {.25,.5,1,2,3}; categorical component built with the same or a different delta_empty; "
         "user-supplied positional component), label lists of 1..300 categories in sorted / reversed / shuffled order, with extra unused labels; "
-        "x unit pairs on a dyadic grid (identical, nested, disjoint, unlabelled where the class allows). d() and the kernel value must equal "
+        "; every class default-constructed (documented defaults) x unit pairs on a dyadic grid (identical, nested, disjoint, unlabelled where the class allows). d() and the kernel value must equal "
         "the model formula within 2^-17 relative, be symmetric, non-negative and zero on identical units. non-trivial = both units real with "
         "different segments or categories; distinct by (object description, unit pair)")
 TRUSTED_BASE = ["Coq 8.16.1 kernel", "extraction (ExtrOcamlBasic only), ocaml/driver.ml",
@@ -216,6 +216,31 @@ def run(rep, tier, seed, pa):
     nobj = 110 if tier == "quick" else 900
     npairs = 40 if tier == "quick" else 80
     lines, metas = [], []
+    # documented defaults: delta_empty = 1 for every class, alpha = beta = 1 and the positional / absolute components for the combined one
+    from sortedcontainers import SortedSet
+    defaults = [("PositionalSporadicDissimilarity", lambda: pa.PositionalSporadicDissimilarity()),
+                ("AbsoluteCategoricalDissimilarity", lambda: pa.AbsoluteCategoricalDissimilarity()),
+                ("PrecomputedCategoricalDissimilarity", lambda: pa.PrecomputedCategoricalDissimilarity(SortedSet(["a", "b"]), np.array([[0, 1], [1, 0]], dtype=np.float32))),
+                ("LevenshteinCategoricalDissimilarity", lambda: pa.LevenshteinCategoricalDissimilarity(["a", "b"])),
+                ("OrdinalCategoricalDissimilarity", lambda: pa.OrdinalCategoricalDissimilarity(["a", "b"])),
+                ("NumericalCategoricalDissimilarity", lambda: pa.NumericalCategoricalDissimilarity(["1", "2"])),
+                ("CombinedCategoricalDissimilarity", lambda: pa.CombinedCategoricalDissimilarity())]
+    for name, mk in defaults:
+        rep.count("default_constructed")
+        rep.case(sample={"default_constructed": name})
+        try:
+            o = mk()
+            got = {"delta_empty": float(o.delta_empty)}
+            want = {"delta_empty": 1.0}
+            if name.startswith("Combined"):
+                got.update(alpha=float(o.alpha), beta=float(o.beta), positional=type(o.positional_dissim).__name__, categorical=type(o.categorical_dissim).__name__,
+                           positional_delta_empty=float(o.positional_dissim.delta_empty), categorical_delta_empty=float(o.categorical_dissim.delta_empty))
+                want.update(alpha=1.0, beta=1.0, positional="PositionalSporadicDissimilarity", categorical="AbsoluteCategoricalDissimilarity",
+                            positional_delta_empty=1.0, categorical_delta_empty=1.0)
+        except Exception as e:
+            got, want = "raised %r" % (e,), None
+        if got != want:
+            rep.violation("defaults:" + name, {"class": name, "got": got, "documented": want}, "%s() has %r, documented defaults %r" % (name, got, want))
     for _ in range(nobj):
         desc = random_desc(rng, tier)
         try:
